@@ -60,6 +60,28 @@ def scheduler_info(ctx):
             a = n.args[0]
             if isinstance(a, ast.Attribute) and dotted(a.value) == "self":
                 info["tidgen"] = a.attr
+    # class-wide fallback: the table that is assigned LocalStatus members is the state table wherever that happens
+    if info["states"] is None or info["tasks"] is None:
+        votes = {}
+        for m in ci.methods.values():
+            for n in walk_no_nested(m.node):
+                if isinstance(n, ast.Assign) and len(n.targets) == 1 and isinstance(n.targets[0], ast.Subscript):
+                    t = n.targets[0]
+                    if isinstance(t.value, ast.Attribute) and dotted(t.value.value) == "self":
+                        try:
+                            v = ctx.ev.eval(n.value, m.module)
+                        except CantEval:
+                            v = None
+                        role = "states" if isinstance(v, EnumVal) else "tasks"
+                        votes.setdefault(role, {}).setdefault(t.value.attr, 0)
+                        votes[role][t.value.attr] += 1
+        for role in ("states", "tasks"):
+            if info[role] is None and votes.get(role):
+                info[role] = max(votes[role].items(), key=lambda kv: kv[1])[0]
+        if info["tasks"] is None:
+            for name, ann, value in ci.fields:
+                if name not in (info["states"], info["sem"]) and isinstance(value, ast.Call) and any(k.arg == "factory" and dotted(k.value) == "dict" for k in value.keywords):
+                    info["tasks"] = name
     for k in ("sem", "states", "tasks"):
         if info[k] is None:
             raise AnalysisError(f"cannot identify the Scheduler field playing the role '{k}'")
@@ -584,6 +606,8 @@ class TaskSem(Semantics):
             for c in _calls(node):
                 f = c.func
                 if isinstance(f, ast.Attribute) and f.attr in ("communicate", "wait") and dotted(f.value) in self.proc_vars:
+                    if not s.facts.get("killed") and "state_while_running" not in s.facts:
+                        s = s.with_fact("state_while_running", tuple(sorted(s.vars.get(self.own_state, frozenset(["?"])))))
                     if f.attr == "wait" and s.facts.get("piped") and not s.facts.get("communicated") and not s.facts.get("killed"):
                         s = s.with_fact("wait_undrained", getattr(node, "lineno", 0)).note(node, "waits for the exit while nobody reads the output pipes")
                     s = s.with_fact("proc_alive", 0).note(node, f"process ended ({f.attr})")
@@ -708,3 +732,35 @@ def rule_enqueue_binding(ctx, r):
     r.check(not rebound, f"{enq.module.relpath}::{enq.qual}::unchanged", "the caller's values reach the coroutine unchanged (no parameter is rebound on the way)",
             f"enqueue_task rebinds `{rebound[0][0] if rebound else ''}` before handing it to the task coroutine (`{ast.unparse(rebound[0][1])[:70] if rebound else ''}`): e.g. prerequisites "
             "that already finished are dropped, so a failed/cancelled prerequisite is never examined and the dependent runs", loc(rebound[0][1], enq.module) if rebound else enq.where)
+
+
+
+def rule_enqueue_registers(ctx, r):
+    """Accepting a task registers it: fresh id -> worker task and state SUBMITTED, the coroutine gets that id and the request's fields, the id is returned."""
+    from .evalhelpers import eval_enqueue
+    from ..consteval import EnumVal
+    out, m = eval_enqueue(ctx)
+    con = f"{m.module.relpath}::{m.qual}::registers"
+    if "error" in out:
+        if out["error"].startswith("Unsupported"):
+            r.info(con, f"not evaluated ({out['error']})")
+        else:
+            r.violation(con, f"enqueue_task fails ({out['error']})", m.where)
+        return
+    st = out["states"].get(7)
+    problems = []
+    if out["ret"] != 7:
+        problems.append(f"returns {out['ret']!r} instead of the freshly allocated id 7")
+    if not (isinstance(st, EnumVal) and st.member == "SUBMITTED"):
+        problems.append(f"the new task's state is {st!r}, not SUBMITTED (a state query before the task starts would not list it, so gwf takes it for not submitted)")
+    if 7 not in out["tasks"]:
+        problems.append("the worker task is not registered under the new id (it cannot be cancelled or waited for by dependents)")
+    if len(out["started"]) != 1:
+        problems.append(f"{len(out['started'])} worker coroutines are started")
+    else:
+        a, k = out["started"][0]
+        bound = dict(zip(["tid", "name", "script", "working_dir", "time_limit", "deps"], a))
+        bound.update(k)
+        if bound != {"tid": 7, "name": "N", "script": "S", "working_dir": "/w", "time_limit": 5, "deps": [1, 2]}:
+            problems.append(f"the worker coroutine is started with {bound}")
+    r.check(not problems, con, "id 7 -> worker task + SUBMITTED, coroutine(tid=7, request fields), returns 7", "enqueue_task: " + "; ".join(problems), m.where)
